@@ -87,6 +87,12 @@ class AndersonCD(BaseSolver):
             datafit.initialize(X, y)
             lipschitz = datafit.get_lipschitz(X, y)
 
+        if len(lipschitz) != n_features:
+            raise ValueError(
+                "AndersonCD needs one Lipschitz constant per feature: "
+                f"`{datafit.__class__.__name__}.get_lipschitz` returned {len(lipschitz)} "
+                f"constants for {n_features} features (group datafits are meant for GroupBCD).")
+
         if len(w) != n_features + self.fit_intercept:
             if self.fit_intercept:
                 val_error_message = (
